@@ -85,7 +85,7 @@ def run():
         names = sorted(CONTEXTS)
         combos = [[a] for a in names] + [[a, b] for a in names for b in names]
         if chk.thorough:
-            combos += [[rng.choice(names) for _ in range(3)] for _ in range(1500)]
+            combos += [[rng.choice(names) for _ in range(3)] for _ in range(5000)]
         else:
             rng.shuffle(combos)
             combos = [[a] for a in names] + combos[:110] + [[rng.choice(names) for _ in range(3)] for _ in range(40)]
